@@ -144,7 +144,8 @@ def _judge(method, path_info, hrefs=None):
     return same, "dotted:as-normalised"
 
 
-CONTAINERS = ["", "/user", "/user/calendars", "/user/calendars/cal", "/user/contacts/ab"]
+# (the last two: existing containers behind a doubled leading slash, which posixpath.normpath keeps)
+CONTAINERS = ["", "/user", "/user/calendars", "/user/calendars/cal", "/user/contacts/ab", "//user", "//user/calendars"]
 
 
 def _variant(part):
